@@ -15,7 +15,7 @@ from .sworld import SWorld, DT, D
 
 PROPS = ('C19',)
 
-NAME_PARTS = ['a', 'Task', ' ', '"', "'", '{', '}', '{{', '}}', '<', '>', '<b>', '</script>', '</div>', '$', '${x}', '$src',
+NAME_PARTS = ['a', 'Task', ' ', '"', "'", '{', '}', '{{', '}}', '<', '>', '<b>', '</script>', '</div>', '<!--', '-->', ']]>', '$', '${x}', '$src',
               '$gantt_data', ':', ',', '#', '%', '%%', ';', 'é', '日本語', '\\', '-->', '&amp;', '&', 'id_1', 'milestone', 'done',
               'section', '(', ')', '[', ']', '|', '`', '=']
 
@@ -40,10 +40,11 @@ def make_scenario(streams, quarantine=()):
     sc['ops'] = sc['ops'][:1]
     dec = {}
     sections = r.random() < 0.5
+    pool = r.choice([['S1', 'S2', 'Phase A'], ['Gates'], ['S1', 'S2']])   # also: one single section name on some tasks only
     for t in sc['tasks']:
         d = {'name': rand_name(r, quarantine)}
-        if sections and r.random() < 0.7:
-            d['gantt_section'] = r.choice(['S1', 'S2', 'Phase A'])
+        if sections and r.random() < 0.6:
+            d['gantt_section'] = r.choice(pool)
         if r.random() < 0.2:
             d['gantt_bar_style'] = {'fill': r.choice(['red', '#0f0']), 'progress': {'fill': 'blue'}} if r.random() < 0.5 else {'fill': 'red'}
         if r.random() < 0.15:
